@@ -151,6 +151,9 @@ func (p ActionPop) applyAction(lexer *StatefulLexer, groups []string) error {
 	if groups[0] == "" {
 		return errors.New("did not consume any input")
 	}
+	if len(lexer.stack) <= 1 {
+		return errors.New("pop from the initial state")
+	}
 	lexer.stack = lexer.stack[:len(lexer.stack)-1]
 	return nil
 }
